@@ -33,6 +33,9 @@ def gen_lines(rng, thorough):
     for b in sorted(set(SIZES[:-1] + [rng.randint(1, 3000) for _ in range(40 if not thorough else 400)])):
         for al in (1, 8, 16, 64):
             lines.append('0 res %d %d' % (b, al))
+    for b in sorted(set(SIZES[:8] + [rng.randint(1, 3000) for _ in range(12 if not thorough else 100)])):
+        for al in (1, 8, 16, 64):
+            lines.append('0 mra %d %d' % (b, al))
     for k in (1, 2, 3, 9, 64):
         lines.append('0 uniq %d' % k)
     return lines
@@ -93,6 +96,16 @@ def oracle(line, prev):
             sT, aT = {1: (1, 1), 2: (24, 1), 3: (64, 32), 4: (70000, 1)}.get(int(t[0]), (8, 8))
             if a_[2] * a_[3] < int(t[2]) * sT or a_[4] < aT:
                 return 'asked the wrapped allocator for %d bytes at %d for %s objects of size %d, alignment %d' % (a_[2] * a_[3], a_[4], t[2], sT, aT)
+    elif op == 'mra':
+        # memory_resource_allocator: node request, array of three through the traits, two 24-byte objects through std_allocator
+        want = [(1, int(t[2]), int(t[3])), (1, 3 * int(t[2]), int(t[3])), (1, 48, 1)]
+        if len(leafs) != 6:
+            return 'expected three allocations and three releases at the memory resource, saw %d calls' % len(leafs)
+        for (a_, d_), w in zip(zip(leafs[0::2], leafs[1::2]), want):
+            if (a_[1], d_[1]) != ('an', 'dn') or a_[2:] != d_[2:]:
+                return 'the memory resource got back (%d bytes, alignment %d) what it had handed out as (%d bytes, alignment %d)' % (d_[3], d_[4], a_[3], a_[4])
+            if a_[3] < w[1] or a_[4] < w[2]:
+                return 'the memory resource was asked for %d bytes at %d for a request of %d bytes at %d' % (a_[3], a_[4], w[1], w[2])
     elif op == 'uniq':
         if len(leafs) % 2:
             return 'unpaired calls at the wrapped allocator'
